@@ -28,6 +28,15 @@ def consume_target(unit, n):
     if not args:
         return None
     a = T.unwrap(unit, args[0])
+    if a is not None and a.get("k") != "ref" and n.get("vc") == "x":
+        # a PART of a variable reached through accessors / members (x.get_unsafe(), x.first, *x): partial consume
+        r = G.root_of(unit, args[0])
+        if r is not None and r != -1:
+            path = T.show(T.norm(unit, args[0]))
+            rn = next((m for m in F.walk(args[0]) if m.get("k") == "ref" and m.get("id") == r), None)
+            if rn is not None and rn.get("dk") in ("local", "param") and not (unit.ty(rn.get("t")) or "").startswith("const "):
+                return (("part", r, path), "%s (part %s)" % (rn.get("name"), path), qn)
+        return None
     if a is None or a.get("k") != "ref" or a.get("dk") not in ("local", "param"):
         return None
     # result type: xvalue means it really is a move
@@ -77,6 +86,8 @@ def _stmt(unit, s, moved, report, fn, loopvars):
                 if v.get("init") is not None:
                     _expr(unit, v["init"], moved, report, fn)
                 moved.pop(v["id"], None)
+                for k2 in [x for x in moved if isinstance(x, tuple) and x[1] == v["id"]]:
+                    moved.pop(k2, None)
         return
     if k == "if":
         if s.get("init") is not None:
@@ -186,6 +197,11 @@ def _reads(unit, n, moved, report, fn, consumes, top=False):
             vid, name, how = ct
             if vid in moved:
                 report(name, moved[vid][0], unit.loc(n.get("loc")), moved[vid][1], "moved again")
+            if not isinstance(vid, tuple):
+                for k2 in [x for x in moved if isinstance(x, tuple) and x[1] == vid]:
+                    report(name, moved[k2][0], unit.loc(n.get("loc")), moved[k2][1], "moved as a whole after its part %s was moved" % k2[2])
+            elif vid[1] in moved:
+                report(name, moved[vid[1]][0], unit.loc(n.get("loc")), moved[vid[1]][1], "a part is moved after the whole object was moved")
             consumes.append((vid, name, how, unit.loc(n.get("loc"))))
             return
         # x = ...  re-initialises x
@@ -194,15 +210,19 @@ def _reads(unit, n, moved, report, fn, consumes, top=False):
             if r is not None and r.get("k") == "ref":
                 _reads(unit, n.get("args"), moved, report, fn, consumes)
                 moved.pop(r["id"], None)
+                for k2 in [x for x in moved if isinstance(x, tuple) and x[1] == r["id"]]:
+                    moved.pop(k2, None)
                 # a consume recorded for the same variable in this expression (x = f(std::move(x)))
-                consumes[:] = [c for c in consumes if c[0] != r["id"]]
+                consumes[:] = [c for c in consumes if c[0] != r["id"] and not (isinstance(c[0], tuple) and c[0][1] == r["id"])]
                 return
     if k == "assign":
         l = T.unwrap(unit, n.get("l"))
         if l is not None and l.get("k") == "ref":
             _reads(unit, n.get("r"), moved, report, fn, consumes)
             moved.pop(l["id"], None)
-            consumes[:] = [c for c in consumes if c[0] != l["id"]]
+            for k2 in [x for x in moved if isinstance(x, tuple) and x[1] == l["id"]]:
+                moved.pop(k2, None)
+            consumes[:] = [c for c in consumes if c[0] != l["id"] and not (isinstance(c[0], tuple) and c[0][1] == l["id"])]
             return
     if k == "ref" and n.get("dk") in ("local", "param"):
         if n["id"] in moved:
@@ -222,12 +242,29 @@ def _reads(unit, n, moved, report, fn, consumes, top=False):
             _stmt(unit, op.get("body"), inner, report, fn, set())
         return
     if k == "cond":
-        _reads(unit, n.get("c_"), moved, report, fn, consumes)
+        # the condition is sequenced before the selected branch: its consumes are visible there
+        c0 = []
+        _reads(unit, n.get("c_"), moved, report, fn, c0)
+        seen = dict(moved)
+        for (vid, name, how, site) in c0:
+            seen[vid] = (site, how, name)
         c1, c2 = [], []
-        _reads(unit, n.get("then"), moved, report, fn, c1)
-        _reads(unit, n.get("else"), moved, report, fn, c2)
+        _reads(unit, n.get("then"), seen, report, fn, c1)
+        _reads(unit, n.get("else"), seen, report, fn, c2)
+        consumes.extend(c0)
         consumes.extend(c1)
         consumes.extend(c2)
+        return
+    if k == "binop" and n.get("op") in ("&&", "||", ","):
+        c0 = []
+        _reads(unit, n.get("l"), moved, report, fn, c0)
+        seen = dict(moved)
+        for (vid, name, how, site) in c0:
+            seen[vid] = (site, how, name)
+        c1 = []
+        _reads(unit, n.get("r"), seen, report, fn, c1)
+        consumes.extend(c0)
+        consumes.extend(c1)
         return
     for c in F.children(n):
         _reads(unit, c, moved, report, fn, consumes)
@@ -404,3 +441,112 @@ def m6_function(unit, fn, report):
                 n += 1
                 report(fwd[rv["id"]][0]["name"], unit.loc(node.get("loc")), "%s() on it" % short)
     return len(fwd)
+
+
+# --------------------------------------------------------------------------------------------
+MOVE_FNS = ("std::move", "std::forward", "fcppt::move_if_rvalue", "fcppt::move_if")
+
+
+def generic_root(unit, n, depth=0):
+    """root variable id of n through members, accessors and free projections returning references (any single argument)"""
+    r = G.root_of(unit, n)
+    if r is not None or depth > 4:
+        return r
+    n = T.unwrap(unit, n)
+    if n is None or n.get("k") != "call":
+        return None
+    d = T.callee_decl(unit, n)
+    if d is None or not (unit.ty(d.get("ret")) or "").strip().endswith("&"):
+        return None
+    roots = set()
+    for a in ([n["recv"]] if n.get("recv") is not None else []) + list(n.get("args", [])):
+        ra = generic_root(unit, a, depth + 1)
+        if ra is not None:
+            roots.add(ra)
+    return roots.pop() if len(roots) == 1 else None
+
+
+def moves_from_params(unit, fn):
+    """{parameter index: site} -- parameters of fn (non-const lvalue references) from which the body moves (an xvalue-producing
+    move / forward / move_if_rvalue / move_if applied to something rooted in the parameter). One-level summary for M7."""
+    if "_mfp" in fn:
+        return fn["_mfp"]
+    out = {}
+    params = fn.get("params", [])
+    idx = {p["id"]: i for i, p in enumerate(params) if p.get("ref") == "lref" and not p.get("fwd")}
+    if idx:
+        for n in F.walk([fn.get("body")] + [i.get("init") for i in fn.get("inits", []) or []], into_lambdas=True):
+            if n.get("k") != "call" or n.get("vc") != "x" or not n.get("args"):
+                continue
+            d = T.callee_decl(unit, n)
+            if d is None or F.strip_targs(d["qn"]) not in MOVE_FNS:
+                continue
+            r = generic_root(unit, n["args"][0])
+            if r in idx:
+                out.setdefault(idx[r], unit.loc(n.get("loc")))
+    fn["_mfp"] = out
+    return out
+
+
+def m7_function(db, unit, fn, report):
+    """An lvalue argument must not be handed to a helper that moves from that parameter: at every call inside fn (a function
+    with forwarding parameters, lambdas included) whose callee has a moves-from summary for parameter i, argument i must
+    not be rooted in a forwarding parameter that is an lvalue reference in this instantiation. Returns #call sites checked."""
+    fwd = fwd_params_in_scope(fn)
+    if not fwd or F.strip_targs(F.top_function(fn).get("qn", "")) in MOVE_FNS + ("fcppt::detail::move_if::execute",):
+        return 0   # the move primitives themselves
+    n_sites = 0
+    for n in F.walk(fn.get("body"), into_lambdas=False):
+        if n.get("k") != "call" or not n.get("args"):
+            continue
+        callee = db.resolve(unit, n.get("callee")) if n.get("callee") is not None else None
+        if callee is None or callee.get("body") is None:
+            continue
+        mf = moves_from_params(callee["_unit"], callee)
+        if not mf:
+            continue
+        for i, site in mf.items():
+            if i >= len(n["args"]):
+                continue
+            n_sites += 1
+            r = generic_root(unit, n["args"][i])
+            if r in fwd and fwd[r][0]["ref"] in ("lref", "clref") and not fwd[r][1].get("lambda"):
+                report(fwd[r][0]["name"], unit.loc(n.get("loc")), F.strip_targs(callee["qn"]), site)
+    return n_sites
+
+
+def m5b_function(unit, fn, report):
+    """In an instantiation whose forwarding parameters are ALL lvalue references, nothing that lives in caller storage may be
+    moved: an xvalue-producing move_if_rvalue / std::forward / move_if whose operand is reached through a reference wrapper
+    (fcppt::reference::get, std::reference_wrapper::get) or an iterator dereference. Returns #sites checked."""
+    fwd = fwd_params_in_scope(fn)
+    own = [p for (p, o) in fwd.values() if not o.get("lambda")]
+    if not own or any(p["ref"] not in ("lref", "clref") for p in own):
+        return 0
+    n_sites = 0
+    for n in F.walk(fn.get("body"), into_lambdas=False):
+        if n.get("k") != "call" or not n.get("args"):
+            continue
+        d = T.callee_decl(unit, n)
+        if d is None or F.strip_targs(d["qn"]) not in ("fcppt::move_if_rvalue", "std::forward", "fcppt::move_if"):
+            continue
+        a = n["args"][0]
+        while a is not None and a.get("k") in ("icast", "cast"):
+            a = a.get("e")
+        through = None
+        if a is not None and a.get("k") == "call":
+            q = T.callee_qn(unit, a) or ""
+            if q in ("fcppt::reference::get", "std::reference_wrapper::get"):
+                through = "a reference wrapper"
+            elif a.get("opcall") in ("*", "->"):
+                through = "an iterator"
+        elif a is not None and a.get("k") == "unop" and a.get("op") == "*":
+            through = "a pointer / iterator"
+        if through is None:
+            continue
+        # lambda-owned `auto &&` forwarding (std::forward<decltype(x)>(x)) never reaches here: its operand is a plain reference
+        n_sites += 1
+        if n.get("vc") == "x":
+            X = (d.get("targs") or ["?"])[0]
+            report(unit.loc(n.get("loc")), X, through)
+    return n_sites
